@@ -496,6 +496,14 @@ def countexact(run, fx):
             continue
         fn = fn[0]
         IT = 'graphite2::_utf_iterator<%s>::' % ctype
+        # the iterator's members by role (its one pointer, its one small integer): renaming them does not misplace the harness' inputs
+        irec = fx.raw['records'].get(IT[:-2]) or {}
+        pf = [f_['n'] for f_ in irec.get('fields', []) if '*' in (f_.get('t') or '')]
+        sf = [f_['n'] for f_ in irec.get('fields', []) if '*' not in (f_.get('t') or '') and 'char' in (f_.get('t') or '')]
+        if len(pf) != 1 or len(sf) != 1:
+            run.broken('VALIDATEFIRST', inst, 'the position / step-length members of %s were not recognised' % IT[:-2], fn[0].where() if fn else '')
+            continue
+        FCP, FSL = IT + pf[0], IT + sf[0]
         cases, prob = 0, None
         try:
             for n in range(0, 4):
@@ -505,9 +513,9 @@ def countexact(run, fx):
                             continue               # without a buffer end the text must be NUL-terminated (the API contract)
                         vec = O.Vec([O.Lz([u]) for u in units])
                         first = O.Rec()
-                        first[IT + 'cp'], first[IT + 'sl'] = O.It(vec, 0), 1
+                        first[FCP], first[FSL] = O.It(vec, 0), 1
                         last = O.Rec()
-                        last[IT + 'cp'], last[IT + 'sl'] = (O.It(vec, n) if with_last else O.Ptr(None)), 1
+                        last[FCP], last[FSL] = (O.It(vec, n) if with_last else O.Ptr(None)), 1
                         errv = O.Vec(['unset'])
                         it = O.Interp(fx, natives={'abs': lambda i_, f_, e_, o_, a_: abs(i_.rv(a_[0]))})
                         it.lz_arith_ok = True        # the decoded value of a surrogate pair is only tested against 0 here, and it is >= 0x10000 for every pair
